@@ -249,7 +249,7 @@ LinkUndo(r, w, sup, l) ==
         r1 == [r EXCEPT !.seq = seq1, !.cur = l.oldcur, !.active = FALSE, !.chan = l.oldchan, !.ignv = l.oldignv,
                         !.try = l.oldtry, !.dev = l.olddev, !.jail = l.oldjail, !.classic = l.oldclassic,
                         !.inhibited = l.oldinh, !.lastRefresh = l.oldlr, !.cohort = l.oldcohort,
-                        !.rstat = IF sup.revert THEN l.oldrstat ELSE r.rstat]    \* NB: only restored for reverts
+                        !.rstat = l.oldrstat]    \* "old-revert-status" is saved by every link-snap (fix 2565626)
         r2 == IF Len(seq1) > 0 THEN RestoreRevCfg(r1, l.oldcur)
               ELSE [EmptyRec EXCEPT !.revcfg = r.revcfg]   \* Set() drops the entry; DeleteSnapConfig
     IN Res(r2, [w EXCEPT !.linked = 0], NoLoc)
@@ -488,14 +488,6 @@ C10_Restored ==
 
 \* C10, the "which kept revisions are blocked from automatic refresh" clause
 C10_BlockRestored == FailedIRR => Block(rec) = Block(chg.pre.rec) \ chg.disc
-
-\* the one place where the code is known not to restore Block: failed refresh to a kept revision that was
-\* marked NotBlocked by an earlier revert (doLinkSnap deletes the entry, undoLinkSnap restores it only for reverts)
-RevertStatusAsymmetry ==
-    /\ chg.kind = "refresh" /\ chg.sup.rev \in Range(chg.pre.rec.seq) /\ chg.sup.rev \in chg.pre.rec.rstat
-C10_BlockRestoredModuloAsymmetry ==
-    FailedIRR => \/ Block(rec) = Block(chg.pre.rec) \ chg.disc
-                 \/ (RevertStatusAsymmetry /\ Block(rec) = (Block(chg.pre.rec) \ chg.disc) \cup {chg.sup.rev})
 
 DoneRefresh == Idle /\ chg.status = "Done" /\ chg.kind = "refresh"
 Card(S) == Cardinality(S)
